@@ -18,33 +18,39 @@ type c09Prog struct {
 	Thread    c01issThread
 	Seeds     []c01issSeed
 	LastClean string
+	AcctSeed  map[string]string
 }
 
 // c09Programs: every lock-taking operation reachable with the doubles, in the configurations
-// that change its exit paths. (Account registration needs the mock ACME CA: not covered here.)
+// that change its exit paths. Account registration (newACMEClientWithAccount) runs against the mock ACME
+// server pkg/mockca09; its requests are gated through the issuer's HTTPProxy callback.
 func c09Programs() []c09Prog {
 	due := []c01issSeed{{c01nmCanon, "due"}}
 	fresh := []c01issSeed{{c01nmCanon, "fresh"}}
 	return []c09Prog{
-		{"obtain-sync", c01issThread{Prog: "obtain", Name: c01nmCanon}, nil, ""},
-		{"obtain-sync-reuse-nochk", c01issThread{Prog: "obtain", Name: c01nmCanon, Reuse: true, NoChk: true}, []c01issSeed{{c01nmCanon, "keyonly"}}, ""},
-		{"obtain-sync-unicode", c01issThread{Prog: "obtain", Name: c01nmUni}, nil, ""},
-		{"obtain-async", c01issThread{Prog: "obtain", Name: c01nmCanon, Async: true}, nil, ""},
-		{"obtain-async-reuse", c01issThread{Prog: "obtain", Name: c01nmCanon, Async: true, Reuse: true}, nil, ""},
-		{"renew-sync", c01issThread{Prog: "renew", Name: c01nmCanon}, due, ""},
-		{"renew-sync-not-due", c01issThread{Prog: "renew", Name: c01nmCanon}, fresh, ""},
-		{"renew-sync-force-reuse", c01issThread{Prog: "renew", Name: c01nmCanon, Force: true, Reuse: true}, fresh, ""},
-		{"renew-sync-missing", c01issThread{Prog: "renew", Name: c01nmCanon, NoChk: true}, nil, ""},
-		{"renew-async", c01issThread{Prog: "renew", Name: c01nmCanon, Async: true}, due, ""},
-		{"renew-async-force", c01issThread{Prog: "renew", Name: c01nmCanon, Async: true, Force: true, NoChk: true}, fresh, ""},
-		{"manage-obtain", c01issThread{Prog: "manage", Name: c01nmCanon}, nil, ""},
-		{"manage-renew", c01issThread{Prog: "manage", Name: c01nmCanon}, due, ""},
-		{"clean", c01issThread{Prog: "clean"}, due, ""},
-		{"clean-interval-first", c01issThread{Prog: "clean", Interval: true}, fresh, ""},
-		{"clean-interval-old", c01issThread{Prog: "clean", Interval: true}, fresh, "old"},
-		{"clean-interval-recent", c01issThread{Prog: "clean", Interval: true}, fresh, "recent"},
-		{"ari-update", c01issThread{Prog: "ari", Name: c01nmCanon}, fresh, ""},
-		{"ari-newer-in-storage", c01issThread{Prog: "ari", Name: c01nmCanon, Newer: true}, fresh, ""},
+		{"obtain-sync", c01issThread{Prog: "obtain", Name: c01nmCanon}, nil, "", nil},
+		{"obtain-sync-reuse-nochk", c01issThread{Prog: "obtain", Name: c01nmCanon, Reuse: true, NoChk: true}, []c01issSeed{{c01nmCanon, "keyonly"}}, "", nil},
+		{"obtain-sync-unicode", c01issThread{Prog: "obtain", Name: c01nmUni}, nil, "", nil},
+		{"obtain-async", c01issThread{Prog: "obtain", Name: c01nmCanon, Async: true}, nil, "", nil},
+		{"obtain-async-reuse", c01issThread{Prog: "obtain", Name: c01nmCanon, Async: true, Reuse: true}, nil, "", nil},
+		{"renew-sync", c01issThread{Prog: "renew", Name: c01nmCanon}, due, "", nil},
+		{"renew-sync-not-due", c01issThread{Prog: "renew", Name: c01nmCanon}, fresh, "", nil},
+		{"renew-sync-force-reuse", c01issThread{Prog: "renew", Name: c01nmCanon, Force: true, Reuse: true}, fresh, "", nil},
+		{"renew-sync-missing", c01issThread{Prog: "renew", Name: c01nmCanon, NoChk: true}, nil, "", nil},
+		{"renew-async", c01issThread{Prog: "renew", Name: c01nmCanon, Async: true}, due, "", nil},
+		{"renew-async-force", c01issThread{Prog: "renew", Name: c01nmCanon, Async: true, Force: true, NoChk: true}, fresh, "", nil},
+		{"manage-obtain", c01issThread{Prog: "manage", Name: c01nmCanon}, nil, "", nil},
+		{"manage-renew", c01issThread{Prog: "manage", Name: c01nmCanon}, due, "", nil},
+		{"clean", c01issThread{Prog: "clean"}, due, "", nil},
+		{"clean-interval-first", c01issThread{Prog: "clean", Interval: true}, fresh, "", nil},
+		{"clean-interval-old", c01issThread{Prog: "clean", Interval: true}, fresh, "old", nil},
+		{"clean-interval-recent", c01issThread{Prog: "clean", Interval: true}, fresh, "recent", nil},
+		{"ari-update", c01issThread{Prog: "ari", Name: c01nmCanon}, fresh, "", nil},
+		{"ari-newer-in-storage", c01issThread{Prog: "ari", Name: c01nmCanon, Newer: true}, fresh, "", nil},
+		{"acct-register", c01issThread{Prog: "acct"}, nil, "", nil},
+		{"acct-register-callback", c01issThread{Prog: "acct", Cb: true}, nil, "", nil},
+		{"acct-registration-without-key", c01issThread{Prog: "acct"}, nil, "", map[string]string{"acct@example.com": "regonly"}},
+		{"acct-already-registered", c01issThread{Prog: "acct"}, nil, "", map[string]string{"acct@example.com": "full"}},
 	}
 }
 
@@ -53,11 +59,14 @@ func c09Emit(w *emit.Writer, label string, cs c01issCase, o *c01issObs) {
 	rec.Policy, rec.Script = "script", o.Sched
 	d := map[string]any{"class": cs.Class, "program": label, "threads": len(cs.Threads), "faults": len(cs.Faults), "steps": len(o.Steps),
 		"held": o.Held, "recorded": o.Recorded, "deadlock": o.Deadlock}
-	w.Add(emit.Case{Desc: d, In: rec, Obs: o, Wire: c01issWire(9, o), Nontrivial: len(cs.Faults) > 0, Key: fmt.Sprint(label, len(cs.Threads), cs.Faults, o.Sched)})
+	w.Add(emit.Case{Desc: d, In: rec, Obs: o, Wire: c01issWire(9, o), Nontrivial: len(cs.Faults) > 0, Key: fmt.Sprint(label, len(cs.Threads), cs.Faults, cs.CancelWait, o.Sched)})
 	w.Hist("program=" + label)
 	w.Hist("class=" + cs.Class)
 	w.Hist(fmt.Sprintf("threads=%d", len(cs.Threads)))
 	for _, s := range o.Steps {
+		if s.Fault == c01fCancel && s.Op[0] == 7 {
+			w.Hist(fmt.Sprintf("cancelled_while_waiting=%v", map[bool]string{false: "planned", true: "rescue"}[o.Deadlock]))
+		}
 		if s.Fault != 0 {
 			w.Hist("fault=" + c01FaultNames[s.Fault])
 			w.Hist("fault_at=" + c09OpKindOf(s.Desc))
@@ -100,7 +109,7 @@ func runC09(tier string, seed int64, outdir string, replay string) error {
 		return nil
 	}
 	mk := func(p c09Prog, nth int) c01issCase {
-		cs := c01issCase{Seeds: p.Seeds, LastClean: p.LastClean, Policy: "rr", Class: "generic", AllowSaveFault: true, AllowUnlockFault: true, AllowOverlap: true}
+		cs := c01issCase{Seeds: p.Seeds, LastClean: p.LastClean, AcctSeed: p.AcctSeed, Policy: "rr", Class: "generic", AllowSaveFault: true, AllowUnlockFault: true, AllowOverlap: true}
 		for i := 0; i < nth; i++ {
 			cs.Threads = append(cs.Threads, p.Thread)
 		}
@@ -146,9 +155,29 @@ func runC09(tier string, seed int64, outdir string, replay string) error {
 				}
 			}
 		}
+		// the second request is cancelled while it waits for the lock the first one holds (after w further
+		// steps of the holder); alone, and with a fault in the holder
+		if !(p.Thread.Prog == "ari" && p.Thread.Newer) && !(p.Thread.Prog == "acct" && p.AcctSeed["acct@example.com"] == "full") {
+			for wsteps := 0; wsteps <= 4; wsteps += 2 {
+				for f := c01fNone; f <= c01fPanic; f++ {
+					cs := mk(p, 2)
+					cs.CancelWait = map[string]int{"0": wsteps, "1": wsteps} // whichever of the two has to wait
+					if f != c01fNone {
+						cs.Faults = map[string]int{fmt.Sprintf("0:%d", n/2+wsteps): f, fmt.Sprintf("1:%d", n/2+wsteps): f}
+					}
+					cs.AllowUnlockFault = false
+					oo, err := c01RunIssCase(cs)
+					if err != nil {
+						return fmt.Errorf("%s cancel-wait %d fault %d: %v", p.Label, wsteps, f, err)
+					}
+					c09Emit(w, p.Label, cs, oo)
+					total++
+				}
+			}
+		}
 	}
 	w.Meta.Exhaustive = true
-	w.Meta.Universe = fmt.Sprintf("%d operations/configurations x every op index of the fault-free trace x {error, cancel, panic} x {1, 2 threads} = %d faulty runs on the in-memory Locker (Unlock failures only single-threaded); plus random two-fault plans", len(c09Programs()), total)
+	w.Meta.Universe = fmt.Sprintf("%d operations/configurations x every op index of the fault-free trace x {error, cancel, panic} x {1, 2 threads}, plus the second request cancelled while waiting after 0/2/4 steps x {no fault, error, cancel, panic in the holder} = %d runs on the in-memory Locker (Unlock failures only single-threaded); plus random two-fault plans", len(c09Programs()), total)
 	// random plans with two or three faults (paths only reachable after a first fault: retries, rollbacks)
 	r := rand.New(rand.NewSource(seed))
 	nr := 300
@@ -165,6 +194,9 @@ func runC09(tier string, seed int64, outdir string, replay string) error {
 			cs.Faults[fmt.Sprintf("%d:%d", r.Intn(len(cs.Threads)), r.Intn(30))] = 1 + r.Intn(3)
 		}
 		cs.AllowUnlockFault = false
+		if len(cs.Threads) == 2 && r.Intn(3) == 0 {
+			cs.CancelWait = map[string]int{fmt.Sprint(r.Intn(2)): r.Intn(6)}
+		}
 		oo, err := c01RunIssCase(cs)
 		if err != nil {
 			return fmt.Errorf("%s random plan %v: %v", p.Label, cs.Faults, err)
